@@ -412,6 +412,7 @@ func (o *ODS) readODS() (square, error) {
 		}
 
 		// not cached, read and cache
+		verifMark("ods.readods.miss", o.fl.Name(), 0)
 		o.lock.Lock()
 		defer o.lock.Unlock()
 	}
